@@ -29,7 +29,7 @@ Print Assumptions not_present_table.
 
 
 (* the kinds `is empty` / `is not empty` are defined on: doMatchIsEmpty's case labels (read from evaluate.go) against the model *)
-From Bexpr Require Import TieCoerce TieKinds.
+From Bexpr Require Import TieKinds.
 
 Theorem is_empty_kinds :
   forall k : kind, existsb (String.eqb (kind_go k)) go_is_empty_kinds = has_length k.
